@@ -1104,7 +1104,8 @@ def expr_candidates(prog, limit=24):
 
 def sig_of(kind, msg):
     """lib_fm.failure_signature with quoted identifiers abstracted (stable across generated names)."""
-    return re.sub(r"[‘'`][A-Za-z_0-9]+[’']", 'ID', F.failure_signature(kind, msg))
+    sg = re.sub(r"[‘'`][A-Za-z_0-9]+[’']", 'ID', F.failure_signature(kind, msg))
+    return re.sub(r'(RecursionError).*', r'\1', sg)
 
 
 def generate(rng, features, applicable, nstmts=(3, 6), depth=2, tries=40, post=None):
@@ -1119,64 +1120,165 @@ def generate(rng, features, applicable, nstmts=(3, 6), depth=2, tries=40, post=N
     raise MachineryError(f'generator: no applicable program in {tries} tries for features {sorted(features)}')
 
 
-def report(ctx, label, cases, results, fails, transform, per_group=3, rounds=5):
-    """Violations with a normal-form key  label:signature:tags(shrunk program).  Failures are grouped by
-    signature; up to per_group members with different tags are shrunk (all candidates of one round go through
-    one behaviour_check) and reported under the tags of the shrunk program."""
+def dispatch(slices):
+    """One transform for programs of several slices (prog['slice'] selects the slice's transformation)."""
+    def transform(text, prog, workdir):
+        return slices[prog['slice']][1](text, prog, workdir)
+    return transform
+
+
+def fast_outcome(work, tag, prog, inputs, transform):
+    """Failure signature of one shrink candidate WITHOUT the oracle (development of reproducers only; the final
+    shrunk program is re-judged by TLC): None = no failure, 'invalid' = original does not build / run."""
+    import traceback
+    try:
+        text = F.render(prog)
+        drv = F.driver_text(prog, 'kernel', inputs)
+    except Exception:  # pylint: disable=broad-except
+        return 'invalid', None
+    try:
+        srcs = transform(text, prog, work)
+    except NotApplicable:
+        return None, None
+    except MachineryError:
+        return 'invalid', None
+    except Exception as ex:  # pylint: disable=broad-except
+        return sig_of('transform-raised', f'{type(ex).__name__}: {ex}\n' + traceback.format_exc()[-1500:]), None
+    return 'build', (text, drv, srcs)
+
+
+def fast_build(work, tag, built):
+    text, drv, srcs = built
+    st, out, err = F.compile_run(work, f'{tag}-o', [('kmod.f90', text), ('drv.f90', drv)])
+    if st != 'ok':
+        return 'invalid'
+    st2, out2, err2 = F.compile_run(work, f'{tag}-n', list(srcs) + [('drv.f90', drv)])
+    if st2 != 'ok':
+        return sig_of(st2, err2)
+    return sig_of('output', '') if out != out2 else None
+
+
+def shrink(ctx, rep, inputs, transform, rounds, tagbase):
+    """Greedy shrinking of one failing program; returns the history of accepted programs (last = smallest)."""
+    import concurrent.futures as cf
+    import time
+    hist = [rep['small']]
+    phase = 0
+    t0 = time.time()
+    for rnd in range(rounds):
+        if time.time() - t0 > rep.get('budget', 240):
+            break
+        cur = hist[-1]
+        if phase == 0:
+            cands = site_candidates(cur, 8) + F.removal_candidates(cur, limit=24)
+        else:
+            cands = expr_candidates(cur, 24)
+        cands = [prune(copy.deepcopy(c)) for c in cands]
+        hit = None
+        for c0 in range(0, len(cands), 8):
+            chunk = cands[c0:c0 + 8]
+            pre = [fast_outcome(ctx.work, f'{tagbase}-{rnd}-{c0 + i}', c, inputs, transform) for i, c in enumerate(chunk)]
+            with cf.ThreadPoolExecutor(max_workers=8) as ex:
+                sigs = list(ex.map(lambda ib: fast_build(ctx.work, f'{tagbase}-{rnd}-{c0 + ib[0]}', ib[1][1]) if ib[1][0] == 'build' else ib[1][0],
+                                   enumerate(pre)))
+            for c, sg in zip(chunk, sigs):
+                if sg == rep['sig']:
+                    hit = c
+                    break
+            if hit is not None:
+                break
+        if hit is None:
+            phase += 1
+            if phase > 1:
+                break
+        else:
+            hist.append(hit)
+    return hist
+
+
+def report(ctx, cases, results, fails, slices, per_group=2, rounds=12):
+    """Violations with a normal-form key  slice:signature:tags(shrunk program).  Failures are grouped by
+    (slice, signature); up to per_group members with different tags are shrunk (fast, gfortran only), the shrunk
+    programs are then re-judged by TLC in one batch; the key uses the smallest confirmed program."""
+    transform = dispatch(slices)
     groups = {}
     for idx, kind, msg in fails:
-        groups.setdefault(sig_of(kind, msg), []).append((idx, kind, msg))
-    ctx.cover[f'{label}_failure_groups'] = {k: len(v) for k, v in groups.items()}
+        groups.setdefault((cases[idx][0]['slice'], sig_of(kind, msg)), []).append((idx, kind, msg))
+    ctx.cover['failure_groups'] = {f'{k[0]}:{k[1]}': len(v) for k, v in sorted(groups.items())}
     reps = []
-    for sig, members in sorted(groups.items()):
+    for (label, sig), members in sorted(groups.items()):
         seen = set()
         for idx, kind, msg in sorted(members, key=lambda mm: len(results[mm[0]]['text'])):
             tg = tags(cases[idx][0])
             if tg in seen:
                 continue
             seen.add(tg)
-            reps.append({'sig': sig, 'idx': idx, 'kind': kind, 'msg': msg, 'small': cases[idx][0], 'n': len(members)})
+            reps.append({'label': label, 'sig': sig, 'idx': idx, 'kind': kind, 'msg': msg, 'small': cases[idx][0], 'n': len(members)})
             if len(seen) >= per_group:
                 break
-    for r in reps:
-        r['phase'] = 0           # 0: statements / call sites, 1: expressions, 2: done
-    for _ in range(rounds):
-        batch = []
-        for r in reps:
-            if r['phase'] > 1:
-                continue
-            if r['phase'] == 0:
-                cands = site_candidates(r['small'], 8) + F.removal_candidates(r['small'], limit=16)
-            else:
-                cands = expr_candidates(r['small'], 20)
-            r['cands'] = cands
-            for c in cands:
-                batch.append((prune(copy.deepcopy(c)), cases[r['idx']][1]))
-        if not batch:
-            break
-        res, fl, _ = F.behaviour_check(ctx, f'{label}-shrink', batch, transform)
-        failed = {i: sig_of(kind, msg) for i, kind, msg in fl}
-        pos = 0
-        for r in reps:
-            if r['phase'] > 1:
-                continue
-            nxt = None
-            for ci in range(len(r['cands'])):
-                if failed.get(pos + ci) == r['sig'] and nxt is None:
-                    nxt = batch[pos + ci][0]
-            pos += len(r['cands'])
-            if nxt is None:
-                r['phase'] += 1
-            else:
-                r['small'] = nxt
+    confirm = []
+    for ri, r in enumerate(reps):
+        r['hist'] = shrink(ctx, r, cases[r['idx']][1], transform, rounds, f'shr{ri}')
+        for h in r['hist'][1:]:
+            confirm.append((ri, h))
+    if confirm:
+        cres, cfails, _ = F.behaviour_check(ctx, 'confirm', [(h, cases[reps[ri]['idx']][1]) for ri, h in confirm], transform)
+        csig = {i: sig_of(kind, msg) for i, kind, msg in cfails}
+        for ci, (ri, h) in enumerate(confirm):
+            if csig.get(ci) == reps[ri]['sig']:
+                reps[ri]['small'] = h          # later entries are smaller: the last confirmed one wins
     seen_keys = set()
     for r in reps:
-        key = f"{label}:{r['sig']}:{tags(r['small'])}"
+        key = f"{r['label']}:{r['sig']}:{tags(r['small'])}"
         if key in seen_keys:
             continue
         seen_keys.add(key)
         idx = r['idx']
-        what = (f"{label}: {r['n']} program(s) in this failure group; transformed program "
+        what = (f"{r['label']}: {r['n']} program(s) in this failure group; transformed program "
                 f"{'output differs from FMachine' if r['kind'] == 'output' else r['kind']}: {r['msg'][:700]}\n"
                 f"--- original (shrunk) ---\n{F.render(r['small'])}--- transformed (unshrunk case) ---\n{results[idx].get('newtext', '')[:3000]}")
-        ctx.violation(key, what, {'prog': cases[idx][0], 'inputs': cases[idx][1], 'label': label})
+        ctx.violation(key, what, {'prog': cases[idx][0], 'inputs': cases[idx][1]})
+
+
+def run_slices(ctx, slices, total, assumptions):
+    """Common driver body of C28 / C33: generate per slice, one behaviour_check over everything, report."""
+    import os
+    if ctx.replay:
+        c = ctx.replay['case']
+        cases = [(c['prog'], c['inputs'])]
+    else:
+        total = int(os.environ.get('VERIF_N', total))
+        only = os.environ.get('VERIF_SLICES')          # development: comma separated labels
+        active = {k: v for k, v in slices.items() if not only or k in only.split(',')}
+        wsum = sum(sl[3] for sl in active.values())
+        cases = []
+        for label, sl in active.items():
+            n = max(2, round(total * sl[3] / wsum))
+            for _ in range(n):
+                prog, inputs = generate(ctx.rng, sl[0], sl[2], post=sl[4] if len(sl) > 4 else None)
+                prog['slice'] = label
+                cases.append((prog, inputs))
+    results, fails, legal = F.behaviour_check(ctx, 'all', cases, dispatch(slices))
+    per = {}
+    failed = {idx: sig_of(kind, msg) for idx, kind, msg in fails}
+    for r in results:
+        label = cases[r['idx']][0]['slice']
+        st = per.setdefault(label, {'programs': 0, 'legal': 0, 'not_applicable': 0, 'ok': 0, 'failing': 0})
+        st['programs'] += 1
+        if r['idx'] in legal:
+            st['legal'] += 1
+            if r.get('new', ('',))[0] == 'not-applicable':
+                st['not_applicable'] += 1
+            elif r['idx'] in failed:
+                st['failing'] += 1
+            else:
+                st['ok'] += 1
+    ctx.cover['slices'] = per
+    report(ctx, cases, results, fails, slices, per_group=2 if ctx.quick else 3, rounds=10 if ctx.quick else 16)
+    seen = set()
+    for r in results:
+        label = cases[r['idx']][0]['slice']
+        if label not in seen and len(ctx.samples) < 6 and r['idx'] in legal:
+            seen.add(label)
+            ctx.sample({'slice': label, 'program': r['text'], 'inputs': cases[r['idx']][1][:1]})
+    ctx.assumptions += assumptions
